@@ -43,14 +43,34 @@ CHECKS = {
    "288 (quick) / 2880 (thorough) cases, each in a fresh server process: generated lease files vs an independent reference parser (accept iff well-formed; every listed MAC served its last listed address, unlisted clients and requests without IA_NA byte-identical to the chain without the plugin), autorefresh sequences of good/bad equal-length single-pwrite rewrites of self-identifying versions (old-or-new, monotone, all-or-nothing, bounded progress 400 polls / 20 s with one re-arm, malformed leaves the old mapping), and dual-stack processes whose DHCPv4 and DHCPv6 instances refresh independently.",
    "'eventually' restated as bounded progress; rename-replacement and unclassified line shapes are not driven; stdlib net.ParseMAC/ParseIP define 'every spelling'.",
    "reference-parser monitor + differential (with/without plugin) oracle + version-trace monitor under autorefresh", "4 C10"),
+ "C11": ("match4", "exploration",
+   "7 plugin chains (14 processes quick / 42 thorough), each answering the full 256-opcode x 23-message-type-shape matrix plus 1500/6000 generated and mutated datagrams inside a private network namespace; UDP writes (capture hook) and sniffed link-level frames are the replies; oracle = the statement's table (answered only if parseable BOOTREQUEST DISCOVER/REQUEST; op, xid, htype, chaddr, flags, giaddr, options 82/61 echoed, OFFER/ACK-or-NAK, at most one reply).",
+   "codec verdict defines 'unparseable'; zero-length options 61/82 and hlen > 16 are no-crash-only; that a reply is sent at all is C13.",
+   "decision-table monitor over captured replies and sniffed frames", "4 C11"),
+ "C12": ("match6", "exploration",
+   "5 chains x bound/unbound listener, each answering the matrix of 254 message types x client-id x rapid-commit (plain and under 0-4 Relay-Forward layers, global and link-local sources, two arrival links) plus 1200/5000 generated and mutated datagrams; oracle = reply-type table, xid, client-id, per-layer relay mirror, innermost = stateless chain's answer to the un-relayed message, destination = source, pin iff link-local.",
+   "relay chains with Relay-Reply layers are no-crash-only; inner-equality is only asserted for stateless chains.",
+   "decision-table + differential (relayed vs plain) monitor over captured replies", "4 C12"),
+ "C13": ("order", "exploration",
+   "synthetic plugins logging object identities and markers; all 781 behaviour chains of length 0-4 (3906 up to length 5 in the thorough tier) x both protocols + random mixes of dual/v4-only/v6-only/failing/nil/unknown plugins, through plugins.LoadPlugins (config value or YAML via config.Load) and the real HandleMsg4/6; every chain-child engine additionally wraps each loaded handler to assert 'nil only with stop'.",
+   "exhaustive over the five behaviours up to the stated length; identities are pointer values printed by the plugins themselves.",
+   "invocation-trace monitor (online checker of the order/at-most-once/pass-through specification)", "4 C13"),
  "C14": ("sid", "exploration",
    "32 (quick) / 200 (thorough) accepted server_id spellings, each hosted in a fresh server process; DHCPv6: all 256 message types x 9 kinds of Server Identifier x relay depth 0-2 decided by the RFC 8415 section 16 table; DHCPv4: siaddr x option 54 x DISCOVER/REQUEST matrix; every answered message must carry exactly this server's identifier.",
    "0.0.0.0 in option 54 is no-crash-only; types the server never answers are expected to stay unanswered.",
    "decision-table monitor over the full request matrix, one configuration per server process", "4 C14"),
+ "C15": ("addr4", "exploration",
+   "the full 768-cell table (giaddr x ciaddr x broadcast flag x reply type incl. plugin-made NAK x yiaddr x bound/unbound x arrival link), 3 (quick) / 12 (thorough) repetitions with fresh addresses, inside a private network namespace: UDP destination/port/IP_PKTINFO at the server's WriteTo, link-level unicasts as real frames sniffed on veth peers (link, dst MAC, dst IP, ports, payload).",
+   "hlen 6 on the link-level path; needs the namespace (otherwise inconclusive).",
+   "decision-table monitor over the capture hook and an AF_PACKET sniffer", "4 C15"),
  "C17": ("opt", "exploration",
    "160 (quick) / 3072 (thorough) option-plugin configurations from the accepted grammar, each hosted alone in a fresh server process and sent 48 requests (request-list subsets incl. absent, OFFER/ACK, yiaddr assigned or not, option 51 pre-set or not); differential oracle against the same chain without the plugin: exactly the configured value (encoded independently from the RFCs), once, untouched otherwise, chain continues/stops/drops as stated.",
    "values outside the wire range and duplicate codes in request lists are outside the quantifier; nbp's stop is not asserted.",
    "differential reference-table monitor (with vs without the plugin), one configuration per server process", "4 C17"),
+ "C18": ("config", "exploration",
+   "19200 (quick) / 384000 (thorough) YAML documents through config.Load in child processes inside the private network namespace: grammar documents with exact expectation (plugins, arguments, listeners incl. multicast expansion), documents with one injected rejection, and text mutations (no-panic-only).",
+   "lower-case plugin names; YAML re-typed scalars, out-of-range ports and unbracketed IPv6 are no-panic-only.",
+   "reference-grammar monitor (must-load / must-reject / no-panic) with process-level crash detection", "4 C18"),
  "C19": ("setup", "exploration",
    "1440 (quick) / 28800 (thorough) argument vectors over all 15 built-in plugins (valid, boundary, invalid values of every argument kind, arity 0-6), each in a fresh server process through plugins.LoadPlugins: setup errors, or 40 requests are survived and every reply parses, re-serialises byte-identically and carries the in-memory response's options.",
    "pools of 2^25..2^63 blocks (accepted with a warning, need terabytes of bitmap) are excluded as resource exhaustion; truncation that round-trips is an observation.",
